@@ -27,7 +27,11 @@ MapKeys == {"a", "b", "0"}
 StructFields == {"x", "y"}
 ArrayLen == 2
 MaxSlice == 3
-Kinds == {"scalar", "ptr", "slice", "array", "map", "struct", "pstruct"}
+Kinds == {"scalar", "ptr", "slice", "array", "map", "struct", "pstruct", "pstructp"}
+\* "pstructp": pointer to a flat struct whose field y is itself a pointer to a primitive
+\* (x: Atoms, y: <<>> | <<atom>>) - the only shape in which single fields carry tombstones
+PFieldVals == {<<>>} \cup {<<a>> : a \in Atoms}
+PStructZero == [f \in StructFields |-> IF f = "y" THEN <<>> ELSE 0]
 
 \* ---- keys.  KeyIdx: the index a key parses to (strconv.Atoi), -1 = not a
 \* non-negative integer.  "" is special-cased by the code (treated like "0" but
@@ -57,6 +61,7 @@ ValuesOf(kind) ==
       [] kind = "map"     -> UNION {[S -> Atoms] : S \in SUBSET MapKeys}
       [] kind = "struct"  -> [StructFields -> Atoms]
       [] kind = "pstruct" -> {<<>>} \cup {<<s>> : s \in [StructFields -> Atoms]}
+      [] kind = "pstructp" -> {<<>>} \cup {<<[f \in StructFields |-> IF f = "y" THEN p ELSE a]>> : a \in Atoms, p \in PFieldVals}
 ZeroOf(kind) ==
     CASE kind = "scalar"  -> 0
       [] kind = "ptr"     -> <<>>
@@ -65,12 +70,16 @@ ZeroOf(kind) ==
       [] kind = "map"     -> [k \in {} |-> 0]
       [] kind = "struct"  -> [f \in StructFields |-> 0]
       [] kind = "pstruct" -> <<>>
+      [] kind = "pstructp" -> <<>>
 
 \* deterministic order for sets of strings (map iteration order is random in Go;
 \* the laws must not depend on it - MC checks both orders)
 SeqOfKeys(S, rev) ==
     LET all == IF rev THEN <<"y", "x", "b", "a", "0">> ELSE <<"0", "a", "b", "x", "y">>
     IN SelectSeq(all, LAMBDA k : k \in S)
+
+\* the point of one field of a "pstructp" struct: a nil pointer field is a tombstone
+PFieldPt(f, fv) == IF f = "y" THEN (IF fv = <<>> THEN Pt(f, 0, 1) ELSE Pt(f, fv[1], 0)) ELSE Pt(f, fv, 0)
 
 \* ---- Encode (appendPointsFromValue)
 Enc(kind, v, rev) ==
@@ -82,6 +91,9 @@ Enc(kind, v, rev) ==
       [] kind = "pstruct" -> LET ks == SeqOfKeys(StructFields, rev) IN
                              IF v = <<>> THEN [i \in 1..Len(ks) |-> Pt(ks[i], 0, 1)]
                              ELSE [i \in 1..Len(ks) |-> Pt(ks[i], v[1][ks[i]], 0)]
+      [] kind = "pstructp" -> LET ks == SeqOfKeys(StructFields, rev) IN
+                             IF v = <<>> THEN [i \in 1..Len(ks) |-> Pt(ks[i], 0, 1)]
+                             ELSE [i \in 1..Len(ks) |-> PFieldPt(ks[i], v[1][ks[i]])]
 
 \* ---- Decode (GroupedPoints.SetValue).  Result: <<tag, value>>, tag in ok/err/panic
 Ok(v) == <<"ok", v>>
@@ -153,6 +165,13 @@ StructApply(cur, pts) ==
         LET i == LastFor(pts, f)
         IN IF i = 0 THEN cur[f] ELSE IF TombSet(pts[i].tomb) THEN 0 ELSE pts[i].val]
 
+PStructApply(cur, pts) ==
+    [f \in StructFields |->
+        LET i == LastFor(pts, f)
+        IN IF i = 0 THEN cur[f]
+           ELSE IF f = "y" THEN (IF TombSet(pts[i].tomb) THEN <<>> ELSE <<pts[i].val>>)
+           ELSE IF TombSet(pts[i].tomb) THEN 0 ELSE pts[i].val]
+
 RECURSIVE ScalarApply(_, _, _)
 ScalarApply(cur, pts, i) ==
     IF i > Len(pts) THEN cur
@@ -178,6 +197,11 @@ Dec(kind, prior, pts) ==
            [] kind = "pstruct" ->
                 IF ValidFields(StructFields, pts, 1) = {} THEN Ok(<<>>)
                 ELSE Ok(<<StructApply(IF prior = <<>> THEN ZeroOf("struct") ELSE prior[1], pts)>>)
+           [] kind = "pstructp" ->
+                \* the pointer only becomes nil when every field of the struct has been deleted -
+                \* a tombstone for one (pointer) field leaves the others alone
+                IF ValidFields(StructFields, pts, 1) = {} THEN Ok(<<>>)
+                ELSE Ok(<<PStructApply(IF prior = <<>> THEN PStructZero ELSE prior[1], pts)>>)
 
 \* ---- DiffPoints
 Diff(kind, b, a, rev) ==
@@ -202,6 +226,13 @@ Diff(kind, b, a, rev) ==
             ELSE IF b = <<>> THEN [i \in 1..Len(all) |-> Pt(all[i], a[1][all[i]], 0)]
             ELSE LET ks == SeqOfKeys({f \in StructFields : a[1][f] # b[1][f]}, rev)
                  IN [i \in 1..Len(ks) |-> Pt(ks[i], a[1][ks[i]], 0)]
+      [] kind = "pstructp" ->
+            LET all == SeqOfKeys(StructFields, rev) IN
+            IF b = <<>> /\ a = <<>> THEN <<>>
+            ELSE IF a = <<>> THEN [i \in 1..Len(all) |-> Pt(all[i], 0, 1)]
+            ELSE IF b = <<>> THEN [i \in 1..Len(all) |-> PFieldPt(all[i], a[1][all[i]])]
+            ELSE LET ks == SeqOfKeys({f \in StructFields : a[1][f] # b[1][f]}, rev)
+                 IN [i \in 1..Len(ks) |-> PFieldPt(ks[i], a[1][ks[i]])]
 
 \* ---- laws (C10).  Equality identifies nil and empty containers by construction
 \* (both are <<>> / the empty function here).
